@@ -414,6 +414,20 @@ def run_bmc(q, prop, findings):
                 layer={k: ("fn" if callable(v) else v) for k, v in q.layer.items()})
     asserts = list(h._viols) if q.asserts is None else q.asserts
     covers = list(h._covers) if q.covers is None else q.covers
+    if getattr(q, "alive", True) and h._assumes:
+        # reachability witness of the environment itself: the assumptions can be met through the whole depth (otherwise
+        # every assertion beyond the dead step would pass vacuously)
+        r = dict(base, check="alive")
+        s = _solver(min(q.timeout, 300))
+        s.add(U.ok[q.K - 1])
+        t0 = time.time()
+        out = str(s.check())
+        r["solver_s"] = round(time.time() - t0, 2)
+        r["result"] = out
+        r["status"] = {"sat": "covered", "unsat": "vacuous"}.get(out, "unknown")
+        if out == "unknown":
+            r["required"] = False
+        res.append(r)
     for a in asserts:
         sig = h._viols[a]
         kfs = _kf_for(findings, prop, a)
@@ -672,7 +686,7 @@ def run_query(q, prop, findings):
         out = [dict(query=q.name, kind=q.kind, check="*", status="error", error=f"{type(e).__name__}: {e}",
                     trace=traceback.format_exc()[-1500:])]
     for r in out:
-        r["required"] = q.required
+        r["required"] = bool(q.required and r.get("required", True))
         r["wall_s"] = round(time.time() - t0, 2)
         r["desc"] = q.desc
         if q.outside:
@@ -696,13 +710,15 @@ def split_queries(queries):
         if len(asserts) + (1 if covers else 0) <= 1:
             out.append(q)
             continue
-        for a in asserts:
+        for k, a in enumerate(asserts):
             qa = copy.copy(q)
             qa.asserts, qa.covers = [a], []
+            qa.alive = (k == 0)
             out.append(qa)
         if covers:
             qc = copy.copy(q)
             qc.asserts, qc.covers = [], covers
+            qc.alive = not asserts
             out.append(qc)
     return out
 
